@@ -5,6 +5,7 @@ package main
 
 import (
 	"go/ast"
+	"regexp"
 	"strings"
 
 	"golang.org/x/tools/go/packages"
@@ -19,8 +20,24 @@ type flatStmt struct {
 	Node ast.Node
 }
 
-func flattenBody(p *packages.Package, fd *ast.FuncDecl, subst map[string]string) []flatStmt {
+// inlineHelper, when set, returns the declaration of a small helper that
+// exists only on this side of the comparison (extracted by a refactoring);
+// a statement that just calls it is replaced by the helper's statements with
+// the receiver and parameters bound to the call's operands.
+type helperLookup func(call *ast.CallExpr) *ast.FuncDecl
+
+func flattenBody(p *packages.Package, fd *ast.FuncDecl, subst map[string]string, helpers ...helperLookup) []flatStmt {
 	c := newCanon(p, fd, subst)
+	render := func(e ast.Expr) string {
+		save := c.b.String()
+		c.b.Reset()
+		c.node(e)
+		r := c.b.String()
+		c.b.Reset()
+		c.b.WriteString(save)
+		return r
+	}
+	depth := 0
 	// number the receiver and parameters first so naming is stable
 	if fd.Recv != nil {
 		c.node(fd.Recv)
@@ -38,7 +55,7 @@ func flattenBody(p *packages.Package, fd *ast.FuncDecl, subst map[string]string)
 			c.node(q)
 			c.b.WriteString("| ")
 		}
-		out = append(out, flatStmt{prefix + " " + strings.Join(strings.Fields(c.b.String()), " "), n})
+		out = append(out, flatStmt{normWrite(prefix + " " + strings.Join(strings.Fields(c.b.String()), " ")), n})
 	}
 	var walk func(list []ast.Stmt)
 	walkStmt := func(s ast.Stmt) {}
@@ -89,6 +106,42 @@ func flattenBody(p *packages.Package, fd *ast.FuncDecl, subst map[string]string)
 		case *ast.LabeledStmt:
 			out = append(out, flatStmt{"label", x})
 			walkStmt(x.Stmt)
+		case *ast.DeferStmt:
+			// the port's recover wrapper (and any deferred clean-up) is compared
+			// by other rules; skipping it keeps the numbering of the locals aligned
+			out = append(out, flatStmt{"defer", x})
+		case *ast.ExprStmt:
+			if call, ok := x.X.(*ast.CallExpr); ok && len(helpers) > 0 && depth < 2 {
+				if hd := helpers[0](call); hd != nil && hd != fd && hd.Body != nil && len(hd.Body.List) <= 12 && !call.Ellipsis.IsValid() {
+					// bind receiver and parameters
+					bound := true
+					if hd.Recv != nil && len(hd.Recv.List) == 1 && len(hd.Recv.List[0].Names) == 1 {
+						if se, ok := call.Fun.(*ast.SelectorExpr); ok {
+							c.names[p.TypesInfo.Defs[hd.Recv.List[0].Names[0]]] = "\x00" + render(se.X)
+						} else {
+							bound = false
+						}
+					}
+					i := 0
+					for _, f := range hd.Type.Params.List {
+						for _, nm := range f.Names {
+							if i < len(call.Args) {
+								c.names[p.TypesInfo.Defs[nm]] = "\x00" + render(call.Args[i])
+							} else {
+								bound = false
+							}
+							i++
+						}
+					}
+					if bound && i == len(call.Args) {
+						depth++
+						walk(hd.Body.List)
+						depth--
+						return
+					}
+				}
+			}
+			emit(s, "stmt", s)
 		default:
 			emit(s, "stmt", s)
 		}
@@ -100,6 +153,14 @@ func flattenBody(p *packages.Package, fd *ast.FuncDecl, subst map[string]string)
 	}
 	walk(fd.Body.List)
 	return out
+}
+
+// normWrite maps the port's `_, _ = p.WriteString(x)` (pp's io.Writer-style
+// methods, which forward to the buffer) onto the reference's `p.buf.writeString(x)`.
+var reWrite = regexp.MustCompile(`assign= \(_ \(\) _ \(\) call \(SelectorExpr \((\$\d+) \(\) (write\w*) \(\) \)`)
+
+func normWrite(s string) string {
+	return reWrite.ReplaceAllString(s, "ExprStmt (call (SelectorExpr (SelectorExpr ($1 () buf () ) $2 () )")
 }
 
 func isNilNode(n ast.Node) bool {
